@@ -108,6 +108,9 @@ M('c06-sweep-wrap-CONTROL', 'C06', ('render/render.go', "\t\tif deltaTheta > 0 {
 # ---- C07
 M('c07-enc-csel-mask', 'C07', ('encode/encode.go', "\te.cSel = cSel & 0x3f\n\te.buf = append(e.buf, e.cSel)", "\te.cSel = cSel\n\te.buf = append(e.buf, e.cSel&0x3f)"))
 M('c07-logger-nsel', 'C07', ('logger.go', "\tif d.Destination != nil {\n\t\td.Destination.SetNSel(nSel)", "\tif d.Destination != nil {\n\t\td.Destination.SetCSel(nSel)"))
+M('c07-logger-absquad-args', 'C07', ('logger.go', "\t\td.Destination.AbsQuadTo(x1, y1, x, y)", "\t\td.Destination.AbsQuadTo(x, y, x1, y1)"), why='an absolute operation forwarded by the DestinationLogger with its control and end point swapped')
+M('c07-logger-abscube-rel', 'C07', ('logger.go', "\t\td.Destination.AbsSmoothCubeTo(x2, y2, x, y)", "\t\td.Destination.RelSmoothCubeTo(x2, y2, x, y)"), why='the DestinationLogger forwards AbsSmoothCubeTo as its relative twin')
+M('c05-rasterlogger-quad', 'C05', ('raster/logger.go', "\tr.Rasterizer.QuadTo(bx, by, cx, cy)", "\tr.Rasterizer.QuadTo(cx, cy, bx, by)"), why='the pass-through RasterizerLogger hands a quadratic on with its points swapped')
 M('c07-generator-restore', ['C07', 'C19'], ('generate/generate.go', "\td.SetCSel(oldCSel)\n\td.SetNSel(oldNSel)", "\td.SetCSel(oldNSel)\n\td.SetNSel(oldCSel)"))
 M('c07-revert-F6', 'C07', ('encode/encode.go', "\t\te.cSel = (e.cSel + 1) & 0x3f", "\t\te.cSel = (e.cSel + 0) & 0x3f"))
 M('c07-revert-F10', ['C07', 'C19'], ('render/render.go', "\t\tz.cSel++\n\t\tz.cSel &= 0x3f", "\t\tz.cSel++"))
